@@ -37,6 +37,14 @@ class SWorld(object):
         z.o.add_component((np.arange(n, dtype=float) * 0.5 + 2.0).reshape(z.shape), 'w')
         for k, name in enumerate(('u', 'v', 't')):
             z.d.add_component((np.arange(n, dtype=float) * (k + 1.5) + 10.0 * k).reshape(z.shape), name)
+        from glue.core.component import CategoricalComponent
+        # the same second key on both sides (for the several-to-several join)
+        z.d.add_component((np.arange(n) % 2).reshape(z.shape), 'jk')
+        z.o.add_component((np.arange(n) % 2).reshape(z.shape), 'jk')
+        # a categorical component with explicit categories: custom order and an unused category
+        z.o.add_component(CategoricalComponent(np.array(['b', 'a', 'zz', 'b', 'a', 'b'][:n] if n <= 6 else ['b'] * n).reshape(z.shape),
+                                               categories=np.array(['zz', 'b', 'unused', 'a'])), 'cc')
+        z.o.add_component((np.datetime64('2020-01-01T00:00:00') + np.arange(n) * np.timedelta64(36, 'h')).reshape(z.shape), 'when')
         z.d.style.color = '#102030'
         z.d.style.alpha = 0.25
         z.d.meta['origin'] = 'verif'
@@ -111,7 +119,11 @@ class SWorld(object):
                    'style': [d.style.color, d.style.alpha, d.style.markersize], 'meta': json.loads(json.dumps(dict(d.meta), default=str, sort_keys=True)),
                    'coords': type(d.coords).__name__, 'shape': list(d.shape),
                    'world': {c.label: enc(d[c]) for c in d.world_component_ids}}
+            rec['categorical'] = {}
             for c in d.main_components + d.derived_components:
+                comp = d.get_component(c)
+                if hasattr(comp, 'categories') and hasattr(comp, 'codes'):
+                    rec['categorical'][c.label] = {'codes': enc(comp.codes), 'categories': enc(comp.categories), 'labels': enc(comp.labels)}
                 try:
                     rec['values'][c.label] = enc(d[c])
                 except Exception as e:
@@ -182,7 +194,13 @@ def replay_one(beh):
             elif op == 'AddLink':
                 w.add_link(a['s'])
             elif op == 'AddJoin':
-                w.z.d.join_on_key(w.z.o, 'i', 'zz')
+                kind = a['s'] if a['s'] in ('j11', 'j1N', 'jNN') else 'j11'
+                if kind == 'j11':
+                    w.z.d.join_on_key(w.z.o, 'i', 'zz')
+                elif kind == 'j1N':
+                    w.z.d.join_on_key(w.z.o, 'i', ('zz', 'y'))        # one key on d matches either key on o
+                else:
+                    w.z.d.join_on_key(w.z.o, ('i', 'jk'), ('zz', 'jk'))
             elif op == 'SaveLoad':
                 before = w.project()
                 try:
